@@ -8,26 +8,27 @@ pub(crate) fn is_ident(s: &str) -> bool {
     }
     while let Some(c) = chars.next() {
         if c == '\\' {
-            // a backslash at the very end or in front of a newline is not an escape
-            match chars.peek() {
+            match chars.next() {
+                // a backslash at the very end or in front of a newline is not an escape
                 None | Some('\n' | '\r' | '\x0C') => return false,
+                Some(first) if first.is_ascii_hexdigit() => {
+                    // up to five more hex digits, then one optional whitespace character;
+                    // whatever ends the escape is an ordinary character of the value
+                    for _ in 0..5 {
+                        match chars.peek() {
+                            Some(c) if c.is_ascii_hexdigit() => {
+                                chars.next();
+                            }
+                            _ => break,
+                        }
+                    }
+                    if matches!(chars.peek(), Some(c) if c.is_whitespace()) {
+                        chars.next();
+                    }
+                }
+                // any other character is escaped by the backslash
                 Some(..) => {}
             }
-            for _ in 0..6 {
-                let next = match chars.next() {
-                    Some(t) => t,
-                    None => return true,
-                };
-                if !next.is_ascii_hexdigit() {
-                    break;
-                }
-            }
-            match chars.peek() {
-                Some(c) if c.is_whitespace() => {
-                    chars.next();
-                }
-                _ => {}
-            };
             continue;
         }
         if !is_name(c) {
